@@ -1,5 +1,4 @@
 (* Lemmas about Model/Membership.v (C07, membership rules). *)
-From Coq Require Import String.
 From DB Require Import Base.Bytes Gen.GenC07 Model.Membership.
 From Coq Require Import ZifyN ZifyNat ZifyBool.
 Open Scope N_scope.
@@ -1023,52 +1022,7 @@ Section WithNorm.
     NoDup (applied_ccids reqs (snd (run norm true m reqs))).
   Proof. intros H1 H2. apply (one_winner_aux reqs m lo H1 H2). Qed.
 
-  (* ---------------------------------------------------------------- *)
-  (* the conjunction of handleConfigChange as a table, to be compared with the
-     conjunct list genmodel extracts from the source                       *)
-
-  Definition rule_table : list (bool * string * (bool -> membership -> cc -> bool)) :=
-    [ (false, "isUpToDate"%string, fun o m c => is_up_to_date o m c);
-      (true, "isAddRemovedNode"%string, fun _ m c => is_add_removed_node m c);
-      (true, "isAddExistingMember"%string, fun _ m c => is_add_existing_member norm m c);
-      (true, "isAddNodeAsNonVoting"%string, fun _ m c => is_add_node_as_non_voting m c);
-      (true, "isAddNodeAsWitness"%string, fun _ m c => is_add_node_as_witness m c);
-      (true, "isAddWitnessAsNode"%string, fun _ m c => is_add_witness_as_node m c);
-      (true, "isAddWitnessAsNonVoting"%string, fun _ m c => is_add_witness_as_non_voting m c);
-      (true, "isAddNonVotingAsWitness"%string, fun _ m c => is_add_non_voting_as_witness m c);
-      (true, "isDeleteOnlyNode"%string, fun _ m c => is_delete_only_node m c);
-      (true, "isInvalidNonVotingPromotion"%string, fun _ m c => is_invalid_non_voting_promotion norm m c) ].
-
-  Definition eval_rule (o : bool) (m : membership) (c : cc)
-             (r : bool * string * (bool -> membership -> cc -> bool)) : bool :=
-    let '(neg, _, p) := r in if neg then negb (p o m c) else p o m c.
-
-  Lemma accepted_is_rule_table ordered m c :
-    accepted norm ordered m c = forallb (eval_rule ordered m c) rule_table /\
-    rule_vector norm ordered m c = map (fun r => snd r ordered m c) rule_table.
-  Proof.
-    split; [|reflexivity].
-    unfold accepted, rule_table. cbn [forallb eval_rule].
-    destruct (is_up_to_date ordered m c); cbn [negb andb]; [|reflexivity].
-    destruct (is_add_removed_node m c); cbn [negb andb]; [reflexivity|].
-    destruct (is_add_existing_member norm m c); cbn [negb andb]; [reflexivity|].
-    destruct (is_add_node_as_non_voting m c); cbn [negb andb]; [reflexivity|].
-    destruct (is_add_node_as_witness m c); cbn [negb andb]; [reflexivity|].
-    destruct (is_add_witness_as_node m c); cbn [negb andb]; [reflexivity|].
-    destruct (is_add_witness_as_non_voting m c); cbn [negb andb]; [reflexivity|].
-    destruct (is_add_non_voting_as_witness m c); cbn [negb andb]; [reflexivity|].
-    destruct (is_delete_only_node m c); cbn [negb andb]; [reflexivity|].
-    destruct (is_invalid_non_voting_promotion norm m c); reflexivity.
-  Qed.
-
-  Lemma rule_table_matches_source :
-    map (fun r : bool * string * (bool -> membership -> cc -> bool) => fst r) rule_table = accepted_conjuncts.
-  Proof. reflexivity. Qed.
 End WithNorm.
-
-Lemma source_shape_facts :
-  apply_only_when_accepted = true /\ address_equal_is_equalfold_of_trimspace = true.
-Proof. split; reflexivity. Qed.
 
 (* ------------------------------------------------------------------ *)
 (* a concrete non-trivial state meeting every invariant (non-vacuity)   *)
